@@ -451,7 +451,8 @@ def classify(sc, r, failing):
             # state-level: confirmed on the implementation only if the row values disagree too (below) or the
             # state at evaluation differs in a way to_dict() exposes; report as a property witness with the rows
             bad = [i for i, e in enumerate(r.get('oracle', [])) if not e['ok']]
-            wit.append(dict(base, check=c, rows=bad[:5], violates_property=True,
+            sd = sorted({tuple(x) for e in r.get('oracle', []) for x in e.get('state_diff', [])})
+            wit.append(dict(base, check=c, rows=bad[:5], violates_property=True, diff=[list(x) for x in sd],
                             explained=sorted({tuple(r['oracle'][i].get('explained') or ['?']) for i in bad}) if bad else [],
                             state_only=not bad,
                             detail='lens state at evaluation differs from fresh_lens(nominal, recorded values, same compensation)'))
@@ -480,9 +481,10 @@ def python_level_checks(sc, r):
         out.append(dict(base, check='reproducible', violates_property=True,
                         detail='two identical seeded runs produced different tables'))
     if sc.get('nominal_clause'):
-        for tr in r['trials']:
+        for ti, tr in enumerate(r['trials']):
             if not all(_close(a, b, 1e-9) for a, b in zip(tr['row_ops'], r['ops_nominal'])):
-                out.append(dict(base, check='nominal_value', violates_property=True,
+                nd = r['oracle'][ti].get('nominal_diff', []) if ti < len(r.get('oracle', [])) else []
+                out.append(dict(base, check='nominal_value', violates_property=True, diff=nd,
                                 detail=f'perturbation equal to nominal gives {tr["row_ops"]} != nominal {r["ops_nominal"]}'))
                 break
     exp = len(_plan_which(sc))
@@ -607,6 +609,15 @@ def targeted():
         'perts': [{'type': 'thickness', 'kw': {'surface_number': 1}, 'sampler': ['range', 4.9, 5.1, 2]},
                   {'type': 'radius', 'kw': {'surface_number': 1}, 'sampler': ['range', 500.0, 1000.0, 2]}],
         'analysis': 'sens', 'trials': None, 'WS': [0.45, 0.5876, 0.7], 'check_repro': True}
+    for sd in (0, 1, 2 ** 32 - 1):
+        # boundary seeds (0 is falsy): two runs must agree and must consume exactly RandomState(seed)
+        t[f'seed-{sd}'] = {
+            'name': f't-seed-{sd}', 'lens': _lens([{'radius': 60.0, 'thickness': 5.0, 'material': ['ideal', 1.5, 0.0]},
+                                                   {'radius': -60.0, 'thickness': 90.0, 'material': 'air'}]),
+            'pickups': [], 'operands': [['f2', {}]], 'comps': [], 'method': 'generic', 'tol': 1e-5,
+            'perts': [{'type': 'radius', 'kw': {'surface_number': 1}, 'sampler': ['normal', 60.0, 0.5, sd]},
+                      {'type': 'thickness', 'kw': {'surface_number': 1}, 'sampler': ['uniform', 4.9, 5.1, None]}],
+            'analysis': 'mc', 'trials': 3, 'WS': [0.45, 0.5876, 0.7], 'check_repro': True}
     t['reset-skips-update'] = {
         'name': 't-pickup', 'lens': _lens([{'radius': 60.0, 'thickness': 5.0, 'material': ['ideal', 1.5, 0.0]},
                                            {'radius': -60.0, 'thickness': 90.0, 'material': 'air'}]),
@@ -655,6 +666,14 @@ def witness_rules(w):
                 # MonteCarlo.run without final reset leaves every perturbed / compensated coordinate displaced
                 if c == 'p_run_ends_nominal' and w.get('analysis') == 'mc':
                     return {'mc-no-final-reset'}
+                return None
+            rules.add(r)
+        return rules
+    if c == 'nominal_value':
+        rules = set()
+        for e in w.get('diff') or [[None, None]]:
+            r = entry_rule(sc, e) if e[0] is not None else None
+            if r is None:
                 return None
             rules.add(r)
         return rules
